@@ -330,10 +330,10 @@ func exprCase(text string, tag string) {
 	reok, rebad, sp := oracle(text)
 	hx.Printf("case %d kind=expr text=%s reok=%s rebad=%s sp=%s tag=%s\n", cid, hx.HexS(text),
 		hx.HexListS(reok), hx.HexListS(rebad), sp, tag)
-	guarded(cid, func(w *strings.Builder) {
+	guarded(cid, func(out *strings.Builder) {
 		o := runExpr(text)
-		fmt.Fprintf(w, "obs %d pf=%s nf=%s pp=%s np=%s\n", cid, o.pf, o.nf, o.pp, o.np)
-		fmt.Fprintf(w, "sobs %d n=%d f=%s p=%s\n", cid, len(text), sOutcome(o.nfErr), sOutcome(o.npErr))
+		fmt.Fprintf(out, "obs %d pf=%s nf=%s pp=%s np=%s\n", cid, o.pf, o.nf, o.pp, o.np)
+		fmt.Fprintf(out, "sobs %d n=%d f=%s p=%s\n", cid, len(text), sOutcome(o.nfErr), sOutcome(o.npErr))
 	})
 }
 
@@ -394,13 +394,13 @@ func quoteCase(s string, r *hx.Rand) {
 			}
 		}
 		hx.Printf("case %d kind=quote s=%s other=%s pr=%s tag=quote\n", cid, hx.HexS(s), hx.HexS(other), runeList(prm))
-		guarded(cid, func(w *strings.Builder) {
+		guarded(cid, func(out *strings.Builder) {
 			u, uerr := strconv.Unquote(q)
 			uq := "err"
 			if uerr == nil {
 				uq = "ok:" + hx.HexS(u)
 			}
-			fmt.Fprintf(w, "obs %d gq=%s uq=%s\n", cid, hx.HexS(q), uq)
+			fmt.Fprintf(out, "obs %d gq=%s uq=%s\n", cid, hx.HexS(q), uq)
 			// value position
 			val := "err"
 			if f, err := benchproc.NewFilter("k:" + q); err == nil {
@@ -437,7 +437,7 @@ func quoteCase(s string, r *hx.Rand) {
 			if _, err := pp.Parse("k@("+q+")", star); err == nil {
 				fx = "ok:" + matchAll(star, mkRes("X", "k", s)) + matchAll(star, mkRes("X", "k", other))
 			}
-			fmt.Fprintf(w, "sobs %d val=%s full=%s key=%s pk=%s fx=%s\n", cid, val, full, key, pk, fx)
+			fmt.Fprintf(out, "sobs %d val=%s full=%s key=%s pk=%s fx=%s\n", cid, val, full, key, pk, fx)
 		})
 	}
 	exprCase("k:"+q, "quoted")
@@ -453,7 +453,7 @@ func bareCase(w string) {
 		cid := id - 1
 		_, _, sp := oracle(w)
 		hx.Printf("case %d kind=bare w=%s sp=%s tag=bare\n", cid, hx.HexS(w), sp)
-		guarded(cid, func(w *strings.Builder) {
+		guarded(cid, func(out *strings.Builder) {
 			val, key, pk := "err", "skip", "skip"
 			if f, err := benchproc.NewFilter("k:" + w); err == nil {
 				val = "ok:" + matchAll(f, mkRes("X", "k", w)) + matchAll(f, mkRes("X", "k", w+"x"))
@@ -470,7 +470,7 @@ func bareCase(w string) {
 					pk = "ok:" + hx.HexS(fld.Name) + ":" + hx.HexS(p.Project(mkRes("X", w, "v")).Get(fld))
 				}
 			}
-			fmt.Fprintf(w, "sobs %d val=%s key=%s pk=%s\n", cid, val, key, pk)
+			fmt.Fprintf(out, "sobs %d val=%s key=%s pk=%s\n", cid, val, key, pk)
 		})
 	}
 	exprCase("k:"+w, "bare")
@@ -637,7 +637,7 @@ func main() {
 
 	// 0. witnesses of recorded defects and hand-picked corner cases
 	for _, t := range []string{`a:"x\\"`, `a:"x\\\\"`, `a:"x\"`, `a:"\\" b:"\\"`, `"\\":"\\"`, `a@("\\")`, `a:"\\\"" `,
-		`a@fixed`, `a@first`, `.config@(a)`, `.unit`, `.config:a`, `a@()`, `a@( )`, `a@bogus`, `"":x`, `""`, `a:/x/y`, "a:/x/\u00a0", "a:/x/\xa0",
+		"a\vb", "a@(1\f2)", "\f", "a:b\vc:d", "\v*", `a@fixed`, `a@first`, `.config@(a)`, `.unit`, `.config:a`, `a@()`, `a@( )`, `a@bogus`, `"":x`, `""`, `a:/x/y`, "a:/x/\u00a0", "a:/x/\xa0",
 		`a:(b OR /c/)`, `a:(b c)`, `a:()`, `(a:b`, `a:b)`, `-`, `- -*`, `a:b AND`, `OR`, `a:OR`, `a:AND`, `AND:a`, `a : b`, `a:"b"c`, `a:-b`, `a:*`, `a:/`, `a:/(/)/`, `a:/[/]/`,
 		"a:b\u2003c:d", "a:\"\n\"", `a:"\'"`, `a:"'"`, `a:"\400"`, `a:"\377"`, `a:"\ud800"`, `a:"\U00110000"`, `a:"\Uffffffff"`, "a:\"\x80\"", "\"\x80\x80\"@x", "\"\x80\x80\"@(y)", "\"\x80\x80\"", `,a`, `a,,b`, `a,`, `a@alpha@num`, `a @ alpha`} {
 		exprCase(t, "witness")
